@@ -182,8 +182,10 @@ fn generate(rng: &mut Rng, index: u64) -> ConnScenario {
         _ => {}
     }
     client.auth_cookie = presented;
-    if think_s > 0 {
-        client.login_think_ns = vec![0, secs(think_s)];
+    // (the answer rarely comes at the very start of a wall-clock second)
+    let think_sub = if with_prior { 0 } else { *rng.pick(&[0u64, 0, ms(1), ms(500), ms(999)]) };
+    if think_s > 0 || think_sub > 0 {
+        client.login_think_ns = vec![0, secs(think_s) + think_sub];
     }
     let services = Services {
         auth: Script::always(Some(0), AuthRes::Profile { name: VOUCHED_NAME.into(), uuid: format!("{:032x}", 0xabcdu128), props: vec![] }),
